@@ -31,6 +31,11 @@ double *mxGetPr(const mxArray *a);
 double mxGetScalar(const mxArray *a);
 size_t mxGetM(const mxArray *a);
 size_t mxGetN(const mxArray *a);
+size_t mxGetNumberOfElements(const mxArray *a);
+mwSize mxGetNumberOfDimensions(const mxArray *a);
+bool mxIsEmpty(const mxArray *a);
+bool mxIsNumeric(const mxArray *a);
+bool mxIsLogical(const mxArray *a);
 mxClassID mxGetClassID(const mxArray *a);
 bool mxIsDouble(const mxArray *a);
 bool mxIsComplex(const mxArray *a);
